@@ -118,6 +118,8 @@ def parseReq (nm : Names) (s : String) : Option Req :=
   match s.splitOn ":" with
   | ["lookup", p, n] => some (.lookup (i p) (bytes n))
   | ["forget", x, c] => some (.forget (i x) (nat c))
+  -- the same forget, delivered in a BATCH_FORGET request
+  | ["bforget", x, c] => some (.forget (i x) (nat c))
   | ["getattr", x, hh] => some (.getattr (i x) (optH nm hh))
   | ["setattr", x, hh, v, m, u, g, sz, a, an, mt, mn] =>
     some (.setattr (i x) (optH nm hh) (nat v) (nat m) (nat u) (nat g) (nat sz) (nat a) (nat an) (nat mt) (nat mn))
